@@ -41,17 +41,26 @@ pub open spec fn resolve_offset_pair(base: u64, b: u64, e: u64, size: u8) -> Opt
 }
 
 /// counted location description (DWARF 5 section 2.6.2: ULEB128 length; GNU v4 split-DWARF extension: 2-byte length)
-/// at offset p: size of the length field, and the length
-pub open spec fn cld_hdr(b: RView, p: int, version: u16) -> int {
-    if version >= 5 { b.leb_len(p) as int } else { 2 }
+/// at absolute position `pos` of `root`: size of the length field, and the length.
+/// Opaque: decoders only need to know *that* the operand is this function of the bytes; `parse_data` reveals it.
+#[verifier::opaque]
+pub open spec fn cld_hdr_at(root: Seq<u8>, pos: int, end: int, be: bool, version: u16) -> nat {
+    if version >= 5 { leb_len_in(root, pos, end) } else { 2 }
 }
-pub open spec fn cld_len(b: RView, p: int, version: u16) -> int {
-    if version >= 5 { b.uleb(p) as int } else { b.u(p, 2) as int }
+#[verifier::opaque]
+pub open spec fn cld_len_at(root: Seq<u8>, pos: int, end: int, be: bool, version: u16) -> nat {
+    if version >= 5 { uleb_in(root, pos, end) } else { uint_at(root, pos, 2, be) }
+}
+pub open spec fn cld_hdr(b: RView, p: int, version: u16) -> nat {
+    cld_hdr_at(b.root, b.start + p, b.end() as int, b.be, version)
+}
+pub open spec fn cld_len(b: RView, p: int, version: u16) -> nat {
+    cld_len_at(b.root, b.start + p, b.end() as int, b.be, version)
 }
 /// length operand of DW_LLE_startx_length: ULEB128 in DWARF 5, fixed 4 bytes in the GNU v4 split-DWARF extension
-pub open spec fn len4_size(b: RView, p: int, version: u16) -> int {
-    if version >= 5 { b.leb_len(p) as int } else { 4 }
+pub open spec fn len4_size(b: RView, p: int, version: u16) -> nat {
+    if version >= 5 { b.leb_len(p) } else { 4 }
 }
-pub open spec fn len4_val(b: RView, p: int, version: u16) -> int {
-    if version >= 5 { b.uleb(p) as int } else { b.u(p, 4) as int }
+pub open spec fn len4_val(b: RView, p: int, version: u16) -> nat {
+    if version >= 5 { b.uleb(p) } else { b.u(p, 4) }
 }
